@@ -89,6 +89,22 @@ def run(ctx):
                       % (len(rs), pi, r0["realized"], json.dumps([[o["t"], o["op"]["m"], o["op"]["k"], o["op"]["v"], o["res"]] for o in r0["ops"]])),
                       {"trace": r0, "cmd": "bin/check C14 --tier %s" % ctx.tier})
 
+    # "callbacks run against the value actually in the map": no operation on a key returns while the callback of a ...WithFunc
+    # operation is running on it (an operation and its callback are one step of SeqMap)
+    eout = os.path.join(ctx.work, "excl.ndjson")
+    vf.drv(ctx, ["c14excl", eout], timeout=600)
+    ex = vf.read_ndjson(eout)
+    ebad, g_, d_ = vf.judge_records(ctx, "sync", "RecC14excl", "RecC14excl.cfg", ex, shards=1, timeout=300)
+    ctx.add("states", d_)
+    ctx.add("transitions", g_)
+    ctx.add("traces_validated_against_impl", len(ex))
+    ctx.cov["callback_exclusion_pairs"] = len(ex)
+    for clause, idxs in sorted(ebad.items()):
+        pairs = sorted(set((ex[i]["f"], ex[i]["w"]) for i in idxs))
+        vf.report(ctx, clause, {"f": pairs[0][0]},
+                  "%d pair(s): while the callback of %s was running on a key, a concurrent %s of that key returned (pairs: %s)" % (len(pairs), pairs[0][0], pairs[0][1], pairs[:8]),
+                  {"records": [ex[i] for i in idxs][:10], "cmd": "bin/check C14 --tier %s" % ctx.tier})
+
     def mutate(t, rng):
         ops = [dict(o) for o in t["ops"]]
         for o in ops:
